@@ -3308,7 +3308,7 @@ func (bc *Blockchain) GetTestHistoricVM(t trigger.Type, tx *transaction.Transact
 	}
 	var mode = mpt.ModeAll
 	if bc.config.RemoveUntraceableBlocks {
-		if b.Index < bc.BlockHeight()-bc.GetMaxTraceableBlocks() {
+		if b.Index+bc.GetMaxTraceableBlocks() < bc.BlockHeight() {
 			return nil, fmt.Errorf("state for height %d is outdated and removed from the storage", b.Index)
 		}
 		mode |= mpt.ModeGCFlag
